@@ -28,6 +28,7 @@ RULE = ("random ADMGs (2-7 nodes; bidirected chains through conditioned nodes an
         "graphs, non-Variable arguments). A case is non-trivial when it is in the property's scope and either the "
         "conditioning set is non-empty or the true verdict changes when every bidirected edge is deleted.")
 ASSUMPTIONS = [
+    "the conditioning set is handed to are_d_separated in every iterable form the signature allows (list, tuple, set, frozenset, generator, iterator, dict keys, map), chosen deterministically per query; the model takes a list, so independence of the form is a runtime clause decided by correspondence + oracle (seeded/C04b)",
     "the 'compatible models' of the last clause are the semi-Markovian models of lean/Y0/Spec/Scm.lean (Scm.Compatible: discrete "
     "variables of any cardinality, positive rational parameters, independent root latents of any arity, two observed variables "
     "share a latent only across a bidirected edge); latents with parents and non-positive distributions are outside the class",
@@ -208,13 +209,39 @@ def _judgement(j):
             [str(G.vint(c)) for c in j.conditions]]
 
 
+CONTAINER_FORMS = ["list", "tuple", "set", "frozenset", "generator", "iterator", "dict_keys", "map"]
+
+
+def _as_container(vs, a, b):
+    """The parameter `conditions` is typed Iterable[Variable]: hand the same conditioning set over in every
+    iterable form a caller may use (one-shot iterables included).  The form is a deterministic function of the
+    query, so a case replays exactly; the verdict must not depend on it (seeded/C04b)."""
+    form = CONTAINER_FORMS[(3 * a + 5 * b + 7 * len(vs) + sum(G.vint(v) if hasattr(G, "vint") else 0 for v in vs)) % len(CONTAINER_FORMS)]
+    if form == "list":
+        return list(vs), form
+    if form == "tuple":
+        return tuple(vs), form
+    if form == "set":
+        return set(vs), form
+    if form == "frozenset":
+        return frozenset(vs), form
+    if form == "generator":
+        return (v for v in vs), form
+    if form == "iterator":
+        return iter(list(vs)), form
+    if form == "dict_keys":
+        return dict.fromkeys(vs).keys(), form
+    return map(lambda v: v, vs), form
+
+
 def _call(g, a, b, Cs):
     import networkx as nx
     from y0.algorithm.conditional_independencies import are_d_separated
 
     graph = G.to_nx_mixed(g)
     try:
-        j = are_d_separated(graph, G.V(a), G.V(b), conditions=[G.V(c) for c in Cs])
+        conds, _form = _as_container([G.V(c) for c in Cs], a, b)
+        j = are_d_separated(graph, G.V(a), G.V(b), conditions=conds)
         return ["ok", _judgement(j)], j
     except (KeyError, TypeError, nx.NetworkXError, nx.NodeNotFound) as e:
         return ["err"], type(e).__name__
@@ -243,7 +270,7 @@ def _run_table(case):
     scope = O.is_acyclic(g)
     for a, b, Cs in table_order(V):
         try:
-            s = bool(are_d_separated(graph, G.V(a), G.V(b), conditions=[G.V(c) for c in Cs]))
+            s = bool(are_d_separated(graph, G.V(a), G.V(b), conditions=_as_container([G.V(c) for c in Cs], a, b)[0]))
             cells.append("t" if s else "f")
         except Exception:
             cells.append("e")
